@@ -257,29 +257,8 @@ WriteFloatFiniteWhy(ev, f, o, sc) ==
             ELSE IF IsSmallInteger(F, v) THEN V(ExactlyEqual(x, M, v.e), "C07", "integer below 2^p not written exactly")
             ELSE V(WithinUlps(x, M, v.e, IF ev.ty = "f32" THEN 256 ELSE 2048), "C07", "output farther from the float than the documented bound")
 
-(* notation, digit counts, punctuation: judged on the output itself *)
-WriteFloatLayoutWhy(ev, f, o, sc) ==
-    LET lay == Layout(sc, f)
-        sci == sc.hasExp
-        epos == SegLo(sc.segs, "echar", 1)
-        decimal == Radix(f) = 10 /\ ExponentBase(f) = 10
-        Want(se) == ~f.no_exponent_notation /\ (f.required_exponent_notation \/ se < o.neg \/ se > o.pos)
-        AtBreak(se) == se = o.neg \/ se = o.pos
-        (* the scientific exponent is that of the float; when rounding to max_significant_digits carried *)
-        (* into a new leading digit (output digits "1") the rounded value's exponent is accepted too     *)
-        carriedMaybe == o.max > 0 /\ lay.n = 1 /\ lay.d[1] = 1
-        notationOk == \/ AtBreak(lay.se) \/ sci = Want(lay.se)
-                      \/ (carriedMaybe /\ (AtBreak(lay.se - 1) \/ sci = Want(lay.se - 1)))
-        trimmedInt == o.trim /\ ~sc.hasPoint
-    IN  V(~(sci /\ f.no_exponent_notation), "C14", "exponent notation used although the format forbids it")
-     \o V(f.required_exponent_notation /\ ~f.no_exponent_notation => sci, "C14", "exponent notation required by the format but not used")
-     \o (IF decimal /\ lay.n > 0 /\ ~f.required_exponent_notation /\ ~f.no_exponent_notation
-         THEN V(notationOk, "C14", IF sci THEN "exponent notation used inside the break points" ELSE "positional notation used outside the break points")
-         ELSE << >>)
-     \o V(sci => ev.res.out[epos] = o.exp, "C14", "exponent character differs from the configured one")
-     \o V(o.max > 0 /\ lay.n > 0 => lay.n <= o.max, "C14", "more significant digits than max_significant_digits")
-     \o V(o.min > 0 /\ lay.n > 0 /\ ~trimmedInt => lay.total >= o.min, "C14", "fewer significant digits than min_significant_digits")
-     \o V(f.required_exponent_sign /\ sci => sc.esign # 0, "C08", "required exponent sign not written")
+(* notation, digit counts, punctuation: judged on the output itself (FloatWrite!LayoutClauses) *)
+WriteFloatLayoutWhy(ev, f, o, sc) == LayoutClauses(f, o, sc, ev.res.out)
 
 WriteFloatContract(ev) ==
     LET f  == FmtOf(ev)
